@@ -5,12 +5,12 @@ go 1.18
 require (
 	github.com/ccbrown/api-fu v0.0.0
 	github.com/gorilla/websocket v1.4.2
+	github.com/json-iterator/go v1.1.12
 )
 
 require (
 	github.com/hashicorp/errwrap v1.0.0 // indirect
 	github.com/hashicorp/go-multierror v1.1.1 // indirect
-	github.com/json-iterator/go v1.1.12 // indirect
 	github.com/modern-go/concurrent v0.0.0-20180306012644-bacd9c7ef1dd // indirect
 	github.com/modern-go/reflect2 v1.0.2 // indirect
 	github.com/pkg/errors v0.8.1 // indirect
